@@ -109,7 +109,7 @@ HARNESSES = [
     H("c14_fva", c14_fva, tiers=("quick",), quick=dict(max_paths=6000, time_budget=80), witness_every=40,
       bounds="T2 with 1 symbolic reaction (EX_A); 2 requested reactions in both orders; 2 workers; chunking as computed by the code; "
              "every chunk->worker assignment x every completion order (both pools: minimum and maximum)"),
-    H("c14_deletion", c14_deletion, tiers=("quick",), quick=dict(max_paths=6000, time_budget=60), witness_every=40,
+    H("c14_deletion", c14_deletion, tiers=("quick",), quick=dict(max_paths=12000, time_budget=100), witness_every=40,
       bounds="T8, one symbolic reaction; single and double reaction / gene deletion of 3 items in 2 orders; 2 workers; all "
              "chunk->worker assignments and completion orders"),
     H("c14_fva_thorough", lambda E: c14_fva(E, procs=(2, 3), templates=(("T2", ("EX_A", "R1", "DM_B")), ("T3", ("EX_A", "R2"))), nitems=4),
